@@ -346,3 +346,141 @@ Proof.
   intros _. rewrite spec_find_batch. cbn [fst snd]. rewrite Ef, Eb, lookup_set_same. cbn [f_batches set_batches].
   now rewrite (memb_remove_last _ _ _ Hnd Ei).
 Qed.
+
+(* ------------------------------------------------------------------ *)
+(* Every store produced by a legal sequential history from the empty
+   repository has distinct keys and distinct batch ids per file, so the side
+   conditions of the theorems above hold for every reachable ghost store. *)
+
+Definition good (s : St) : Prop :=
+  wf s /\ forall k f, lookup k s = Some f -> NoDup (f_batches f).
+
+Lemma NoDup_app_snoc {A} (l : list A) (x : A) : NoDup l -> ~ In x l -> NoDup (l ++ [x])%list.
+Proof.
+  induction l as [|y l IH]; intros Hd Hn; cbn.
+  - constructor; [tauto|constructor].
+  - apply NoDup_cons_iff in Hd as [Hy Hd]. constructor.
+    + rewrite in_app_iff. cbn. intros [H|[H|[]]]; [contradiction|]. apply Hn. now left.
+    + apply IH; [assumption|]. intros H. apply Hn. now right.
+Qed.
+
+Lemma keys_set_present k v s f : lookup k s = Some f -> keys (set k v s) = keys s.
+Proof.
+  revert f. induction s as [|[k' v'] s IH]; intros f H; cbn in *; [discriminate|].
+  destruct (N.eqb k' k) eqn:E; cbn; [reflexivity|]. f_equal. eapply IH; eassumption.
+Qed.
+
+Lemma keys_set_absent k v s : lookup k s = None -> keys (set k v s) = (keys s ++ [k])%list.
+Proof.
+  induction s as [|[k' v'] s IH]; intros H; cbn in *; [reflexivity|].
+  destruct (N.eqb k' k) eqn:E; [discriminate|]. cbn. f_equal. now apply IH.
+Qed.
+
+Lemma in_keys_remove k k' s : In k' (keys (remove k s)) -> In k' (keys s).
+Proof.
+  induction s as [|[k2 v2] s IH]; cbn; [tauto|].
+  destruct (N.eqb k2 k); cbn; intros H; [right; now apply IH|].
+  destruct H as [H|H]; [now left|right; now apply IH].
+Qed.
+
+Lemma wf_remove k s : wf s -> wf (remove k s).
+Proof.
+  unfold wf. induction s as [|[k2 v2] s IH]; cbn; intros H; [constructor|].
+  apply NoDup_cons_iff in H as [Hn Hd]. destruct (N.eqb k2 k); [now apply IH|].
+  cbn. constructor; [|now apply IH]. intros Hin. apply Hn. eapply in_keys_remove; eassumption.
+Qed.
+
+Lemma lookup_remove_some k k' s f : lookup k' (remove k s) = Some f -> lookup k' s = Some f.
+Proof.
+  destruct (N.eq_dec k' k) as [->|Hne]; [now rewrite lookup_remove_same|now rewrite lookup_remove_other].
+Qed.
+
+Lemma good_remove k s : good s -> good (remove k s).
+Proof.
+  intros [Hw Hb]. split; [now apply wf_remove|].
+  intros k' f H. eapply Hb, lookup_remove_some, H.
+Qed.
+
+Lemma good_set_present k v s f :
+  good s -> lookup k s = Some f -> NoDup (f_batches v) -> good (set k v s).
+Proof.
+  intros [Hw Hb] Hl Hv. split.
+  - unfold wf. now rewrite (keys_set_present _ _ _ _ Hl).
+  - intros k' f' H. destruct (N.eq_dec k' k) as [->|Hne].
+    + rewrite lookup_set_same in H. now injection H as <-.
+    + rewrite lookup_set_other in H by assumption. eapply Hb, H.
+Qed.
+
+Lemma good_set_absent k v s :
+  good s -> lookup k s = None -> NoDup (f_batches v) -> good (set k v s).
+Proof.
+  intros [Hw Hb] Hl Hv. split.
+  - unfold wf. rewrite (keys_set_absent _ _ _ Hl).
+    apply NoDup_app_snoc; [exact Hw|now apply lookup_not_in_keys].
+  - intros k' f' H. destruct (N.eq_dec k' k) as [->|Hne].
+    + rewrite lookup_set_same in H. now injection H as <-.
+    + rewrite lookup_set_other in H by assumption. eapply Hb, H.
+Qed.
+
+Lemma memb_false_not_in b l : memb b l = false -> ~ In b l.
+Proof.
+  intros H Hin. unfold memb in H.
+  assert (existsb (N.eqb b) l = true) by (apply existsb_exists; exists b; split; [assumption|apply N.eqb_refl]).
+  congruence.
+Qed.
+
+Lemma in_remove_nth i l x : In x (remove_nth i l) -> In x l.
+Proof.
+  revert i. induction l as [|y l IH]; intros i H; cbn in *; [destruct i; exact H|].
+  destruct i; [now right|]. destruct H as [H|H]; [now left|right; eapply IH, H].
+Qed.
+
+Lemma nodup_remove_nth i l : NoDup l -> NoDup (remove_nth i l).
+Proof.
+  revert i. induction l as [|y l IH]; intros i H; cbn; [destruct i; constructor|].
+  apply NoDup_cons_iff in H as [Hn Hd]. destruct i; [assumption|].
+  constructor; [|now apply IH]. intros Hin. apply Hn. eapply in_remove_nth, Hin.
+Qed.
+
+Lemma good_sweep ks s : good s -> good (sweep_keys ks s).
+Proof.
+  unfold sweep_keys. revert s. induction ks as [|k ks IH]; intros s H; cbn; [assumption|].
+  apply IH. destruct (lookup k s) as [f|]; [|assumption].
+  destruct (f_old f); [now apply good_remove|assumption].
+Qed.
+
+Theorem spec_sweep a s : repo_spec Sweep a s = (sweep_keys (keys s) s, ROk).
+Proof. reflexivity. Qed.
+
+Theorem spec_good o a s : good s -> good (fst (repo_spec o a s)).
+Proof.
+  intros Hg. destruct o.
+  - destruct (lookup (a_fid a) s) as [f|] eqn:E.
+    + now rewrite (spec_store_existing _ _ _ E).
+    + rewrite (spec_store_fresh _ _ E). cbn [fst]. apply good_set_absent; [assumption|assumption|constructor].
+  - now rewrite spec_find_file.
+  - exact Hg.
+  - rewrite spec_delete_file. now apply good_remove.
+  - rewrite spec_store_batch. destruct (lookup (a_fid a) s) as [f|] eqn:E; [|assumption].
+    destruct (memb (a_bid a) (f_batches f)) eqn:Em; [assumption|]. cbn [fst].
+    eapply good_set_present; [assumption|exact E|]. cbn.
+    apply NoDup_app_snoc; [eapply (proj2 Hg), E|now apply memb_false_not_in].
+  - now rewrite spec_find_batch.
+  - now rewrite spec_find_all_batches.
+  - rewrite spec_delete_batch. destruct (lookup (a_fid a) s) as [f|] eqn:E; [|assumption].
+    destruct (last_index (a_bid a) (f_batches f)) as [i|]; [|assumption]. cbn [fst].
+    eapply good_set_present; [assumption|exact E|]. cbn. apply nodup_remove_nth. eapply (proj2 Hg), E.
+  - rewrite spec_sweep. now apply good_sweep.
+Qed.
+
+Lemma good_empty : good [].
+Proof. split; [constructor|]. intros k f H. discriminate. Qed.
+
+Theorem legal_good s0 log s : good s0 -> legal repo_body s0 log s -> good s.
+Proof. intros H0 Hl. induction Hl as [|log s t o a _ IH]; [assumption|]. now apply spec_good. Qed.
+
+(* under a passing lock table every ghost store, and every quiescent real
+   store, reached from the empty repository is well formed *)
+Theorem repo_ghost_good t tr (g : gstate St arg res loc op) :
+  run repo_body (mode_of t) (init []) tr g -> good (ghost g).
+Proof. intros Hr. eapply legal_good; [apply good_empty|]. eapply glog_legal, Hr. Qed.
